@@ -298,8 +298,8 @@ class NumOps:
                 rel = None
         if rel is None and a.sym is not None and b.sym is not None:
             rel = state.rel_lookup(a.sym, b.sym)
-            if rel is None and a.sym == b.sym and not _may_be_nan(a) and not sym_has_star(a.sym):
-                rel = frozenset({"EQ"})
+            if rel is None and a.sym == b.sym and (not _may_be_nan(a) or self.I.explicit) and not sym_has_star(a.sym):
+                rel = frozenset({"EQ"})  # (explicit games: the inputs are finite numbers, a value equals itself)
         if rel and type(op) in _REL_TABLE:
             tvs = {_REL_TABLE[type(op)][r] for r in rel}
             if len(tvs) == 1:
@@ -307,6 +307,8 @@ class NumOps:
         if tv is None and a.rng is not None and b.rng is not None:
             tv = _cmp_ranges(op, a.rng, b.rng)
         sym = mk_sym("cmp", ("const", type(op).__name__), a.sym, b.sym)
+        if tv is None and self.I.explicit and a.sym is not None and b.sym is not None and a.sym != b.sym:
+            self.I.open_cmps.append((a.sym, b.sym))
         self.I.on_compare(node, op, a, b)
         return Bool(tv, prov, sym)
 
